@@ -4,6 +4,7 @@ Case (plain JSON):
 
     {"t": {name: {"ext": parent | None, "lib": bool, "mac": [nodes], "body": [nodes]}},
      "tg": {main name: {"tg": "G0"}},                 # per-template globals passed to get_template
+     "ae": bool,                                      # Environment(autoescape=...)
      "tasks": [{"main": name, "x": "A"}, ...],        # 2-3 concurrent renders
      "order": [task index, ...], "drain": "seq" | "rr"}
 
@@ -35,6 +36,7 @@ RULE = (
     "release sequence interleaves them (some task is resumed after another task ran in between); distinct = distinct case."
 )
 ASSUMPTIONS = [
+    "known finding F70 is excluded by construction: a case whose library macro mm contains an autoescape block around an await, and in which at least two tasks call mm through the cached default module (import without context), is counted as excluded and not run; everything else, including autoescape blocks around awaits in main templates, includes, local macros, call blocks and modules imported with context, is judged",
     "differential oracle: expected output is computed by the same implementation, rendered alone on a fresh environment after the jinja2 package's module-level and class-level containers (set/dict/list) were put back to their import-time contents (approximation of a fresh process: state kept in other objects is not reset); the concurrent run starts from the same state, so a case never depends on earlier cases; a defect common to both sides is invisible",
     "tasks interleave only at harness gates (the templates' only suspending awaits), i.e. at asyncio task granularity",
     "no mutable data object is shared between tasks by the harness; library templates keep no module-level cycler/namespace that importers use (documented cache sharing of imported modules is not interference)",
@@ -56,6 +58,8 @@ def _body_src(nodes, d):
             out.append("{{ %s }}" % k)
         elif k == "g":
             out.append("{{ gate() }}")
+        elif k == "jn":  # depends on the eval context's autoescape setting at run time (mk = [Markup('<i>'), 'b'])
+            out.append("{{ mk|join('<') }}")
         elif k == "tc":  # generator-based coroutine (types.coroutine): type 'generator', awaitable
             out.append("{{ tc() }}")
         elif k == "aw":  # object with __await__
@@ -183,6 +187,7 @@ class _Sched:
         import types
 
         import jinja2
+        import markupsafe
 
         st = self
 
@@ -225,7 +230,7 @@ class _Sched:
         def pc(ctx, name):
             return "%s" % (ctx.resolve(name),)
 
-        return dict(gate=gate, aseq=aseq, seq=seq, pc=pc, rows=rows, tc=tc, aw=Aw, GD={"k": "g", "n": 2})
+        return dict(gate=gate, aseq=aseq, seq=seq, pc=pc, rows=rows, tc=tc, aw=Aw, GD={"k": "g", "n": 2}, mk=[markupsafe.Markup("<i>"), "b"])
 
     async def settle(self):
         import asyncio
@@ -287,7 +292,7 @@ def _run(case, src, task_ids, order, drain):
     import jinja2
 
     _fresh_process_state()
-    env = _env_class()(loader=jinja2.DictLoader(src), enable_async=True)
+    env = _env_class()(loader=jinja2.DictLoader(src), enable_async=True, autoescape=bool(case.get("ae")))
     st = _Sched()
     env.globals.update(st.globals())
     loop = asyncio.new_event_loop()
@@ -338,7 +343,7 @@ def _fresh_process_state():
 def _solo(case, src, ti):
     """The task rendered alone on a fresh environment (memoised: it does not depend on the order)."""
     spec = case["tasks"][ti]
-    key = core.canon([case["t"], case.get("tg"), spec])
+    key = core.canon([case["t"], case.get("tg"), bool(case.get("ae")), spec])
     hit = _SOLO.get(key)
     if hit is None:
         if len(_SOLO) > 64:
@@ -371,7 +376,72 @@ def _reach(case, name, acc):
     return acc
 
 
-def check_case(case):
+_SUSPENDING = {"g", "tc", "aw", "lset", "set", "ns", "cyc", "join", "nsd", "inc"}
+
+
+def _suspends(nodes):
+    for n in nodes:
+        if n[0] in _SUSPENDING or (n[0] == "for" and n[1] == "a"):
+            return True
+        for part in n[1:]:
+            if isinstance(part, list) and part and isinstance(part[0], list) and _suspends(part):
+                return True
+    return False
+
+
+def _auto_around_await(nodes):
+    for n in nodes:
+        if n[0] == "auto" and _suspends(n[2]):
+            return True
+        for part in n[1:]:
+            if isinstance(part, list) and part and isinstance(part[0], list) and _auto_around_await(part):
+                return True
+    return False
+
+
+def _calls_cached_mm(case, name, cached, seen):
+    """does template ``name`` (statically) call the library macro mm imported WITHOUT context from the cached default
+    module?  ``cached`` is False while we are in a main template / its parents that carry per-template globals (their
+    imports build a private module); inside an included template the default module is always the cached one."""
+    if name in seen or name not in case["t"]:
+        return False
+    seen.add(name)
+    td = case["t"][name]
+
+    def walk(nodes):
+        for n in nodes:
+            if n[0] == "imp" and n[1] in (0, 3) and cached:
+                return True
+            if n[0] == "inc" and _calls_cached_mm(case, n[1], True, seen):
+                return True
+            for part in n[1:]:
+                if isinstance(part, list) and part and isinstance(part[0], list) and walk(part):
+                    return True
+        return False
+
+    if walk(td.get("body") or []):
+        return True
+    return bool(td.get("ext")) and _calls_cached_mm(case, td["ext"], cached, seen)
+
+
+def in_known_class(case):
+    """F70: an autoescape block around an await inside the macro of the library imported without context, called by at
+    least two tasks through the cached module (whose single eval context all those calls share)."""
+    lib = case["t"].get("m0")
+    if not lib or not _auto_around_await(lib.get("mac") or []):
+        return False
+    tg = case.get("tg") or {}
+    callers = sum(1 for t in case["tasks"] if _calls_cached_mm(case, t["main"], not tg.get(t["main"]), set()))
+    return callers >= 2
+
+
+def check_known(entry):
+    return check_case(entry["case"], judge_known_class=True)
+
+
+def check_case(case, judge_known_class=False):
+    if not judge_known_class and in_known_class(case):
+        raise core.Excluded()
     src = sources(case)
     ntasks = len(case["tasks"])
     solo = [_solo(case, src, ti) for ti in range(ntasks)]
@@ -401,6 +471,11 @@ def check_case(case):
         labels.append("solo_error")
     if case.get("tg"):
         labels.append("template_globals")
+    if case.get("ae"):
+        labels.append("env_autoescape")
+    lib = case["t"].get("m0")
+    if lib and "jn" in core.canon(lib.get("mac")) and '"auto"' in core.canon(lib.get("mac")):
+        labels.append("lib_macro_autoescape_probe")
     labels.append("releases_%s" % ("0" if not st.released else "1-5" if len(st.released) <= 5 else "6-15" if len(st.released) <= 15 else "16+"))
     return core.Outcome(bool(interleaved and shared), labels)
 
@@ -426,7 +501,7 @@ def _strategy(maxdepth, with_order):
 
         def node(self, c, depth):
             draw = self.draw
-            kinds = ["t", "x", "g", "g", "g", "h", "tg", "tc", "aw"]
+            kinds = ["t", "x", "g", "g", "g", "h", "tg", "tc", "aw", "jn", "jn"]
             if c["loopd"] > 0:
                 kinds += ["i", "lset", "lset"]
             if c["super"]:
@@ -445,7 +520,7 @@ def _strategy(maxdepth, with_order):
             k = draw(st.sampled_from(kinds))
             if k == "t":
                 return ["t", draw(st.sampled_from(["T", "u", "<b>"]))]
-            if k in ("x", "g", "h", "tg", "i", "lset", "set", "cyc", "sup", "tc", "aw"):
+            if k in ("x", "g", "h", "tg", "i", "lset", "set", "cyc", "sup", "tc", "aw", "jn"):
                 return [k]
             if k == "nsd":
                 return ["nsd", draw(st.sampled_from([0, 1])) if c["lib"] else 0]
@@ -537,7 +612,7 @@ def _strategy(maxdepth, with_order):
         for n in range(ntasks):
             main = mains[n] if n < nmains else draw(st.sampled_from(mains))
             tasks.append({"main": main, "x": "ABC"[n]})
-        case = {"t": T, "tg": tg, "tasks": tasks}
+        case = {"t": T, "tg": tg, "tasks": tasks, "ae": draw(st.sampled_from([False, False, True]))}
         if with_order:
             # a batch: the same template set under several long random release orders
             case["orders"] = [
@@ -635,7 +710,7 @@ def run_shard(spec, ctx):
 def floors(total, tier):
     lab = total.labels
     need = ["interleaved", "shared_lib", "shared_include", "shared_parent", "same_main", "concurrent_module_build",
-            "template_globals", "tasks_2", "tasks_3", "releases_16+"]
+            "template_globals", "env_autoescape", "lib_macro_autoescape_probe", "tasks_2", "tasks_3", "releases_16+"]
     missing = [n for n in need if lab.get(n, 0) < 20]
     if missing:
         return "label classes below floor 20: %s" % missing
